@@ -35,3 +35,45 @@ def hook_sender(channel, sender, prefix):
 def hx(s):
     if isinstance(s, str): s = s.encode()
     return "x" + s.hex()
+
+
+def decode(s):
+    """bech32 0.9.1 `decode`: (hrp_lower, data5 without checksum, const) or None"""
+    pos = s.rfind("1")
+    if pos < 0:
+        return None
+    hrp, data = s[:pos], s[pos + 1:]
+    if not (1 <= len(hrp) <= 83) or any(not (33 <= ord(c) <= 126) for c in hrp):
+        return None
+    lo = any("a" <= c <= "z" for c in hrp); up = any("A" <= c <= "Z" for c in hrp)
+    if lo and up:
+        return None
+    case = "U" if up else ("L" if lo else None)
+    vals = []
+    for c in data:
+        if ord(c) >= 128:
+            return None
+        if "a" <= c <= "z":
+            if case == "U":
+                return None
+            case = "L"
+        elif "A" <= c <= "Z":
+            if case == "L":
+                return None
+            case = "U"
+        i = CHARSET.find(c.lower())
+        if i < 0:
+            return None
+        vals.append(i)
+    if len(vals) < 6:
+        return None
+    h = hrp.lower()
+    pm = polymod(hrp_expand(h) + vals)
+    if pm not in (1, 0x2bc830a3):
+        return None
+    return h, vals[:-6], pm
+
+
+def valid_addr(a, prefix):
+    d = decode(a)
+    return d is not None and d[0] == prefix
